@@ -14,6 +14,7 @@ import (
 	"github.com/aws/aws-sdk-go-v2/aws"
 	"github.com/aws/aws-sdk-go-v2/feature/s3/manager"
 	"github.com/aws/aws-sdk-go-v2/service/s3"
+	"github.com/aws/aws-sdk-go-v2/service/s3/types"
 	"github.com/jdillenkofer/pithos/internal/ioutils"
 	"github.com/jdillenkofer/pithos/internal/ptrutils"
 	"github.com/jdillenkofer/pithos/internal/storage"
@@ -145,6 +146,9 @@ func migrateSingleObject(ctx context.Context, source, destination storage.Storag
 	}
 
 	adapter := NewStorageToS3UploadAPIClientAdapter(destination)
+	// The SDK input can only carry Expires as a time.Time; hand the stored raw
+	// header value to the adapter so that values that are not HTTP dates survive.
+	adapter.rawExpires = srcObject.Metadata.Expires
 	uploader := manager.NewUploader(adapter, func(u *manager.Uploader) {
 		u.Concurrency = 1
 	})
@@ -165,6 +169,9 @@ func migrateSingleObject(ctx context.Context, source, destination storage.Storag
 	input.Expires = parseExpires(metadata.Expires)
 	input.WebsiteRedirectLocation = metadata.WebsiteRedirectLocation
 	input.Metadata = metadata.UserMetadata
+	if srcObject.StorageClass != nil {
+		input.StorageClass = types.StorageClass(*srcObject.StorageClass)
+	}
 	_, err = uploader.Upload(ctx, input)
 	if err != nil {
 		return err
@@ -231,6 +238,27 @@ func decodeTaggingHeader(tagging *string) (map[string]string, error) {
 // Adapter from storage to manager.UploadAPIClient
 type StorageToS3UploadAPIClientAdapter struct {
 	storage storage.Storage
+	// rawExpires, when set, replaces the Expires value reconstructed from the SDK input.
+	rawExpires *string
+}
+
+func (a *StorageToS3UploadAPIClientAdapter) metadataFromInput(cacheControl, contentDisposition, contentEncoding, contentLanguage *string, expires *time.Time, websiteRedirectLocation *string, userMetadata map[string]string) *storage.ObjectMetadata {
+	metadata := objectMetadataFromSDKInput(cacheControl, contentDisposition, contentEncoding, contentLanguage, expires, websiteRedirectLocation, userMetadata)
+	if a.rawExpires != nil {
+		if metadata == nil {
+			metadata = &storage.ObjectMetadata{}
+		}
+		metadata.Expires = a.rawExpires
+	}
+	return metadata
+}
+
+func storageClassFromSDK[T ~string](storageClass T) *string {
+	if storageClass == "" {
+		return nil
+	}
+	value := string(storageClass)
+	return &value
 }
 
 func NewStorageToS3UploadAPIClientAdapter(storage storage.Storage) *StorageToS3UploadAPIClientAdapter {
@@ -244,10 +272,11 @@ func (a *StorageToS3UploadAPIClientAdapter) CreateMultipartUpload(ctx context.Co
 	if err != nil {
 		return nil, err
 	}
-	metadata := objectMetadataFromSDKInput(input.CacheControl, input.ContentDisposition, input.ContentEncoding, input.ContentLanguage, input.Expires, input.WebsiteRedirectLocation, input.Metadata)
+	metadata := a.metadataFromInput(input.CacheControl, input.ContentDisposition, input.ContentEncoding, input.ContentLanguage, input.Expires, input.WebsiteRedirectLocation, input.Metadata)
+	storageClass := storageClassFromSDK(input.StorageClass)
 	var createOpts *storage.CreateMultipartUploadOptions
-	if len(tags) > 0 || metadata != nil {
-		createOpts = &storage.CreateMultipartUploadOptions{Tags: tags, Metadata: metadata}
+	if len(tags) > 0 || metadata != nil || storageClass != nil {
+		createOpts = &storage.CreateMultipartUploadOptions{Tags: tags, Metadata: metadata, StorageClass: storageClass}
 	}
 	result, err := a.storage.CreateMultipartUpload(ctx, storage.MustNewBucketName(*input.Bucket), storage.MustNewObjectKey(*input.Key), input.ContentType, nil, createOpts)
 	if err != nil {
@@ -330,10 +359,11 @@ func (a *StorageToS3UploadAPIClientAdapter) PutObject(ctx context.Context, input
 	if err != nil {
 		return nil, err
 	}
-	metadata := objectMetadataFromSDKInput(input.CacheControl, input.ContentDisposition, input.ContentEncoding, input.ContentLanguage, input.Expires, input.WebsiteRedirectLocation, input.Metadata)
+	metadata := a.metadataFromInput(input.CacheControl, input.ContentDisposition, input.ContentEncoding, input.ContentLanguage, input.Expires, input.WebsiteRedirectLocation, input.Metadata)
+	storageClass := storageClassFromSDK(input.StorageClass)
 	var putObjectOptions *storage.PutObjectOptions
-	if len(tags) > 0 || metadata != nil {
-		putObjectOptions = &storage.PutObjectOptions{Tags: tags, Metadata: metadata}
+	if len(tags) > 0 || metadata != nil || storageClass != nil {
+		putObjectOptions = &storage.PutObjectOptions{Tags: tags, Metadata: metadata, StorageClass: storageClass}
 	}
 	result, err := a.storage.PutObject(ctx, storage.MustNewBucketName(*input.Bucket), storage.MustNewObjectKey(*input.Key), input.ContentType, input.Body, nil, putObjectOptions)
 	if err != nil {
